@@ -1404,6 +1404,10 @@ impl ASN1Value {
                         integer_type: i.int_type(),
                         value,
                     };
+                } else if let Some(ToplevelDefinition::Value(tld)) = tlds.get(identifier) {
+                    // not a named number: a reference to another value assignment
+                    *self = tld.value.clone();
+                    self.link_with_type(tlds, ty, type_name)?;
                 }
                 Ok(())
             }
@@ -1441,6 +1445,10 @@ impl ASN1Value {
                         enumerated: tld.name().clone(),
                         enumerable: identifier.clone(),
                     };
+                } else if let Some(ToplevelDefinition::Value(tld)) = tlds.get(identifier) {
+                    // not an enumeral: a reference to another value assignment
+                    *self = tld.value.clone();
+                    self.link_with_type(tlds, ty, type_name)?;
                 }
                 Ok(())
             }
